@@ -78,6 +78,10 @@ def run_blocks(case):
   pad = PADS[padk]
   L = items(ik, n)
   exp = ref_blocks(L, size, hop, pad)
+  # a decoy call with the same size but another hop / pad / input first: state kept between
+  # calls (a cached block, a remembered pad value) would leak into the real call
+  for d in blocks(items("str", (n + 3) % 7), size, max(1, hop - 1) if hop > 1 else hop + 1, "decoy"):
+    d.append("touched")
   if route == "func-list":
     it = blocks(list(L), size=size, hop=hop, padval=pad)
   elif route == "func-gen":
@@ -127,6 +131,7 @@ def run_zero_pad(case):
   route, n, left, right, zk, ik = case
   zero = PADS[zk]
   L = items(ik, n)
+  list(zero_pad(["decoy"], right, left, zero="other"))
   if route == "kw":
     it = zero_pad(L, left=left, right=right, zero=zero)
   elif route == "pos":
